@@ -161,7 +161,7 @@ def transformDependsOn : Val → Out Val
     else .err "unsupportedValue"
   | .seq xs =>
     if xs.all isStr then .ok (.map (xs.foldl (fun acc x => insert (strOf x) shortDep acc) []))
-    else .panic "transform.transformDependsOn"
+    else .err "unsupportedItem"
   | _ => .err "invalidType"
 
 /-- transform/envfile.go `transformEnvFileValue` (anything but a string or a mapping becomes `nil`) -/
